@@ -840,7 +840,12 @@ fn do_op<T: Smp>(cx: &mut Ctx<T>, cmd: &str, line: &str, m: &HashMap<String, Str
             }
             "SETRATIO" => {
                 let before = alloc_count::events();
-                let res = each!(r, x => Resampler::set_resample_ratio(x, getf(m, "x"), get(m, "ramp") == "1"));
+                let via_vec = m.get("via").map(|v| v == "vec").unwrap_or(false);
+                let res = if via_vec {
+                    each!(r, x => VecResampler::set_resample_ratio(x, getf(m, "x"), get(m, "ramp") == "1"))
+                } else {
+                    each!(r, x => Resampler::set_resample_ratio(x, getf(m, "x"), get(m, "ramp") == "1"))
+                };
                 let after = alloc_count::events();
                 match res {
                     Ok(()) => println!("R unit"),
@@ -852,7 +857,12 @@ fn do_op<T: Smp>(cx: &mut Ctx<T>, cmd: &str, line: &str, m: &HashMap<String, Str
             }
             "SETREL" => {
                 let before = alloc_count::events();
-                let res = each!(r, x => Resampler::set_resample_ratio_relative(x, getf(m, "x"), get(m, "ramp") == "1"));
+                let via_vec = m.get("via").map(|v| v == "vec").unwrap_or(false);
+                let res = if via_vec {
+                    each!(r, x => VecResampler::set_resample_ratio_relative(x, getf(m, "x"), get(m, "ramp") == "1"))
+                } else {
+                    each!(r, x => Resampler::set_resample_ratio_relative(x, getf(m, "x"), get(m, "ramp") == "1"))
+                };
                 let after = alloc_count::events();
                 match res {
                     Ok(()) => println!("R unit"),
